@@ -27,7 +27,7 @@ Proof.
 Qed.
 
 Lemma consumer_recv q th pop cl tok : consumer_ok q th pop cl tok -> received (tres th) = pop.
-Proof. intros [? ? ? H ?|? ? ? H ?|? ? ? H ? ?]; exact H. Qed.
+Proof. intros [? ? ? H ?|? ? ? H ?|? ? ? ? H ? ?]; exact H. Qed.
 
 Lemma joinh_facts vs k th pops appo clo F :
   joinh_ok vs k th pops appo clo F ->
@@ -52,7 +52,7 @@ Lemma reader_complete c q p r :
   qclosed (getq c q) = true /\ qtok (getq c q) = 0.
 Proof.
   intros [H1 H2 H3 H4] Hc Ht.
-  destruct Hc as [Hph Hcl Hl Hr Hs|Hph Hcl Hl Hr Hs|Hph Hcl Hl Hr Hclosed Htok].
+  destruct Hc as [Hph Hcl Hl Hr Hs|Hph Hcl Hl Hr Hs|Hph Hcl Hl Hsaw Hr Hclosed Htok].
   - destruct Ht as [Ht|Ht]; [contradiction|congruence].
   - destruct Ht as [Ht|Ht]; [contradiction|congruence].
   - rewrite (H4 Hclosed), Hph, Htok in H2. simpl in H2.
@@ -155,7 +155,7 @@ Qed.
 
 Lemma consumer_alive q th pop cl tok : consumer_ok q th pop cl tok -> tph th <> PStuck /\ dones th = 0.
 Proof.
-  intros [Hp Hc Hl ? ?|Hp Hc Hl ? ?|Hp Hc Hl ? ? ?]; unfold dones; rewrite Hp, Hc, Hl;
+  intros [Hp Hc Hl ? ?|Hp Hc Hl ? ?|Hp Hc Hl ? ? ? ?]; unfold dones; rewrite Hp, Hc, Hl;
     split; try discriminate; reflexivity.
 Qed.
 
